@@ -15,7 +15,7 @@ for p in props:
         checks.append({
          "property_id":pid,
          "quick_cmd":"bin/govc check -prop %s -tier quick"%pid,
-         "thorough_cmd":"bin/govc check -prop %s -tier thorough"%pid,
+         "thorough_cmd":"bash tools_thorough.sh %s"%pid,
          "evidence_file":"/verif/evidence/%s.json"%pid,
          "replay_cmd_template":"bin/govc replay {path}",
          "engine":"govc",
